@@ -71,7 +71,9 @@ for f in kf['findings']:
 out += ['', '-' * 117, '', '## 7. Seeded changes (independent sub-agents; which check catches which change)', '',
         'Each change was written by a fresh sub-agent that saw only the property text and a scratch worktree (nothing from /verif), compiles, passes',
         'the existing tests, and comes with a demonstration that fails with it and passes without (all confirmed by `tool/seedverify.sh`,',
-        '`confirmed_by_me` in each meta.json). `tool/seedcheck.sh seeded/*` applies each to a scratch copy of /repo and runs the quick check.', '',
+        '`confirmed_by_me` in each meta.json). `tool/seedcheck.sh seeded/*` applies each to a scratch copy of /repo and runs the quick check.',
+        'Every result below was measured on the repository tree of its time (`base_commit` in meta.json); /repo has received further `fix:` commits since,',
+        'so a patch of an early round may need fuzz or may no longer apply to the current tree.', '',
         'The column `verifier only` is the same run with the witness program switched off (VERIF_NO_WITNESS=1): what the contracts alone decide.', '',
         '| seed | where / what | result | caught by | verifier only |', '|------|--------------|--------|-----------|---------------|']
 tot_v = {}
